@@ -447,3 +447,41 @@ CHECKS['C20'] = dict(
                          'potential:too-few-points', 'harmonic-oscillator', 'hydrogen']),
     assumptions=['admissible inputs = positive piecewise-constant diffusion coefficients on a whole grid, cubic potentials on a grid, finite boundary values'],
 )
+
+
+def c18_units(tier):
+    srcs = ['sched/explorer.cpp', 'sched/rt.cpp',
+            dict(path='sched/rt_mem.c', cxx='gcc', c=True, flags=['-fno-builtin', '-fno-tree-loop-distribute-patterns']),
+            dict(path='sched/c18_harness.cpp', flags=['-fsanitize=thread'])]
+    u = unit('explore', srcs, 'raw', flags=['-O1'])
+    u['ldflags'] = ['-O1']
+    return [u]
+
+
+def c18_guard(tier, classes, counters):
+    g = []
+    if counters.get('distinct_sync_orders', 0) <= counters.get('programs', 0):
+        g.append('no program showed more than one synchronisation order: nothing collided')
+    if counters.get('guard_ops', 0) <= 0:
+        g.append('no static-initialisation guard was exercised')
+    if counters.get('atomic_ops', 0) <= 0 or counters.get('plain_reads', 0) <= 0:
+        g.append('the runtime observed no accesses')
+    return g
+
+
+CHECKS['C18'] = dict(
+    title='Concurrent read-only use is race-free and deterministic',
+    level='model_checking',
+    engine='E4 schedule explorer',
+    technique='stateless model checking of the implementation: real pthreads serialised by a cooperative scheduler at every synchronisation point (atomic operation, static-initialisation guard, thread start/exit), iterative preemption bounding 0,1,2 followed by unbounded depth-first search with state caching; happens-before (vector-clock) race detection over every load and store reported by compiler instrumentation (-fsanitize=thread, linked against an own runtime), allocation shadow, and bit-wise comparison of every thread\'s results with a sequential run on every explored schedule',
+    level_text='Programs: all 81 ordered pairs of 9 operations (evaluate; copy+destroy of spline, support and grid; a+b, a*b, a-b, predicates; operator application incl. spline factor; bilinear/linear forms; generateBSplines; isZero with its function-local static; destruction of thread-owned copies sharing the grid; support algebra) on shared const objects, further pairs with a class-type scalar (guarded static initialisation), 3-thread and 2x2-operation programs (thorough: all 165 unordered triples and all 2x2 programs). For each program every schedule with at most 2 preemptions is covered (bounds 0, 1, 2 run to completion); the unbounded state-cached search is then run under an execution cap and completes for the smaller programs (counters say for how many). With synchronisation confined to read-modify-write chains on reference counts, one preemption already places any two code segments of two threads concurrently, so every potential race between segments is examined within the bound. On every execution: no pair of conflicting accesses unordered by happens-before, no use after free / double free, schedule-independent set of live blocks, no deadlock, per-operation result digests identical to the operation run alone.',
+    level_note='The harness TU is the real library code compiled with -fsanitize=thread; libstdc++ header code is instrumented too, libstdc++.so/libc internals are not (operator new/delete, memcpy/memmove/memset and the guard functions are interposed). Scheduler hand-offs are not happens-before edges. Sequentially consistent interleavings only; under _GLIBCXX_TSAN libstdc++ disables its double-word fast path in shared_ptr release, so that path is not covered. 2-3 threads, 1-2 operations each. A free-running pass of the same bodies under the real ThreadSanitizer runtime is a secondary detector (thorough tier).',
+    units=c18_units,
+    deadline=dict(quick=600, thorough=2700),
+    rule='each evaluation is one complete (or state-cache-pruned) execution of a program under one schedule in a forked child; distinct_nontrivial = distinct orders in which the threads performed their synchronisation operations, summed over programs. counters: programs, executions, states, transitions, atomic/guard/plain access counts observed by the runtime.',
+    bounds=dict(quick='120 programs: 81 pairs + 25 class-scalar pairs + 13 triples + 10 2x2 programs; every schedule with <= 2 preemptions; unbounded search granted 6000 further executions per program',
+                thorough='all pairs, all 165 triples, all 2x2-operation programs; every schedule with <= 2 preemptions; unbounded search granted 100000 further executions per program'),
+    guards=dict(func=c18_guard, counters=['programs', 'executions', 'states', 'transitions'], classes=['threads:2:ops:1:variant0', 'threads:3:ops:1:variant0', 'threads:2:ops:2:variant0', 'threads:2:ops:1:variant1']),
+    mc_note='states = distinct abstract states at scheduling points (per-thread progress, values observed, vector clocks, contents and clocks of all synchronisation words); transitions = scheduling points executed beyond replayed prefixes; every trace is an execution of the implementation.',
+    assumptions=['data-race freedom makes interleavings at synchronisation points sufficient; any data race is itself reported', 'sequential consistency'],
+)
